@@ -2,6 +2,7 @@
 spec/Speaker.tla + spec/SpeakerMC.tla (roles A and B), harness/speaker/spk_test.go (replay on the real
 speaker controller through the real service / node / configuration reconcilers), spec/SpeakerTrace.tla
 (role C)."""
+import hashlib
 import json
 import os
 
@@ -14,11 +15,13 @@ CONFIGS = {
     "C05": {"quick": [("SpeakerMC_bgp.cfg", "edges"), ("SpeakerMC_bgp2.cfg", "edges"), ("SpeakerMC_bgp_sim.cfg", "sim")],
             "thorough": [("SpeakerMC_bgp.cfg", "edges"), ("SpeakerMC_bgp2.cfg", "edges"), ("SpeakerMC_bgp3.cfg", "edges"),
                          ("SpeakerMC_bgp_sim.cfg", "sim")]},
-    "C09": {"quick": [("SpeakerMC_conv.cfg", "edges"), ("SpeakerMC_convml.cfg", "edges"), ("SpeakerMC_conv_sim.cfg", "sim")],
-            "thorough": [("SpeakerMC_conv.cfg", "edges"), ("SpeakerMC_convml.cfg", "edges"), ("SpeakerMC_conv3.cfg", "edges"),
+    "C09": {"quick": [("SpeakerMC_conv.cfg", "edges"), ("SpeakerMC_convml.cfg", "edges"), ("SpeakerMC_convdual.cfg", "edges"),
+                      ("SpeakerMC_conv_sim.cfg", "sim")],
+            "thorough": [("SpeakerMC_conv.cfg", "edges"), ("SpeakerMC_convml.cfg", "edges"), ("SpeakerMC_convdual.cfg", "edges"),
+                         ("SpeakerMC_conv3.cfg", "edges"),
                          ("SpeakerMC_conv_sim.cfg", "sim"), ("SpeakerMC_convml_sim.cfg", "sim")]},
 }
-SAMPLE = {"quick": 30000, "thorough": None}
+SAMPLE = {"quick": {"C05": 9000, "C09": 7000}, "thorough": {"C05": 120000, "C09": 120000}}
 SIM = {"quick": {"num": 250, "depth": 30}, "thorough": {"num": 3000, "depth": 40}}
 
 
@@ -48,14 +51,22 @@ def is_initial(st):
             and sorted(st["svcQ"]) == sorted(s for s, v in st["cl"]["svcs"].items() if not v.get("null")))
 
 
-def generate(chk, cfg, timeout=1500):
+def generate(chk, cfg, timeout=1700):
     """Roles A + B in one TLC run: every generated transition (Emit), the initial state, and one
-    line per state that violates a design-level property (the exploration goes on)."""
-    edges, inits, mviol = [], [], {}
+    line per state that violates a design-level property (the exploration goes on).  States are
+    identified by a digest of their canonical JSON."""
+    import hashlib
+    edges, inits, mviol, initkeys = [], [], {}, []
+
+    def key(st):
+        return hashlib.md5(vlib.canon(st).encode()).hexdigest()
 
     def sink(o):
         if "pre" in o:
-            edges.append((vlib.canon(o["pre"]), o["act"], vlib.canon(o["post"]), o["n"]))
+            k = key(o["pre"])
+            edges.append((k, o["act"], key(o["post"])))
+            if o["n"] == 0 and not initkeys and is_initial(o["pre"]):
+                initkeys.append(k)
         elif "init" in o:
             inits.append(o["init"])
         elif "mviol" in o:
@@ -71,16 +82,11 @@ def generate(chk, cfg, timeout=1500):
         msg = "MODEL-ONLY: design model %s: %s false in %d state(s) (see notes/speaker.md; verdicts come from role C)" % (cfg, name, n)
         chk.notes.append(msg)
         print(msg)
-    edges.sort(key=lambda e: (e[0], vlib.canon(e[1]), e[2]))
-    initkey = None
-    for e in edges:
-        if e[3] == 0 and is_initial(json.loads(e[0])):
-            initkey = e[0]
-            break
-    if initkey is None:
+    if not initkeys:
         raise vlib.Inconclusive("initial state not found among the emitted transitions of " + cfg)
+    edges.sort(key=lambda e: (e[0], vlib.canon(e[1]), e[2]))
     vlib.log("  %s: %d distinct states, %d transitions emitted in %.1fs" % (cfg, res.distinct, len(edges), res.wall))
-    return [e[:3] for e in edges], inits[0], initkey, res
+    return edges, inits[0], initkeys[0], res
 
 
 def simulate(chk, cfg, num, depth, seed, timeout=1500):
@@ -110,6 +116,68 @@ def simulate(chk, cfg, num, depth, seed, timeout=1500):
         raise vlib.Inconclusive("simulation of %s produced no walks: %s" % (cfg, res.out[-800:]))
     vlib.log("  %s: %d simulated walks, %d steps in %.1fs" % (cfg, len(walks), sum(map(len, walks)), res.wall))
     return walks, inits[0], res
+
+
+def cover_walks(edges, initkey, max_len=40, seed=0, sample=None):
+    """Walks from the initial state that together execute every (sampled) transition: for every
+    target not yet executed, the shortest path to its source, the transition, then as many further
+    unexecuted targets as can be followed directly.  Linear in the total walk length."""
+    import random
+    from collections import defaultdict, deque
+    rnd = random.Random(seed)
+    out = defaultdict(list)
+    for i, e in enumerate(edges):
+        out[e[0]].append(i)
+    parent = {initkey: None}
+    dq = deque([initkey])
+    while dq:
+        k = dq.popleft()
+        for i in out.get(k, ()):
+            nk = edges[i][2]
+            if nk not in parent:
+                parent[nk] = i
+                dq.append(nk)
+    targets = [i for i, e in enumerate(edges) if e[0] in parent]
+    unreachable = len(edges) - len(targets)
+    if sample is not None and sample < len(targets):
+        targets = rnd.sample(targets, sample)
+    todo = set(targets)
+    pending = defaultdict(list)
+    for i in targets:
+        pending[edges[i][0]].append(i)
+    for k in pending:
+        rnd.shuffle(pending[k])
+    order = sorted(targets, key=lambda i: (edges[i][0], i))
+    rnd.shuffle(order)
+    walks = []
+    for t in order:
+        if t not in todo:
+            continue
+        path = []
+        k = edges[t][0]
+        while parent[k] is not None:
+            path.append(parent[k])
+            k = edges[parent[k]][0]
+        path.reverse()
+        walk = path + [t]
+        todo.discard(t)
+        cur = edges[t][2]
+        while len(walk) < max_len:
+            nxt = None
+            while pending.get(cur):
+                c = pending[cur].pop()
+                if c in todo:
+                    nxt = c
+                    break
+            if nxt is None:
+                break
+            walk.append(nxt)
+            todo.discard(nxt)
+            cur = edges[nxt][2]
+        for i in walk:
+            todo.discard(i)
+        walks.append(walk)
+    return walks, unreachable + len(todo)
 
 
 def replay_walks(chk, scen_path, cat_path, tag):
@@ -146,13 +214,28 @@ def direction(main, fresh):
     return "different"
 
 
+def differing_services(o):
+    """Services whose announcement differs between the old speaker and the fresh one."""
+    f = o["fresh"]
+    out = set()
+    for key in ("annB", "annL"):
+        out |= set(o[key]) ^ set(f[key])
+    a = {(e["s"], e["ip"], e["all"], tuple(e["ifs"])) for e in o["l2"]}
+    b = {(e["s"], e["ip"], e["all"], tuple(e["ifs"])) for e in f["l2"]}
+    out |= {e[0] for e in a ^ b}
+    return out or {s for s, v in o["cl"]["svcs"].items() if not v.get("null")}
+
+
 def node_learnt_late(walk_obs, k):
-    """Did the speaker first hear of some node after the last time it handled a service?"""
-    last_handled = max([j for j in range(k + 1) if walk_obs[j]["handled"]], default=-1)
-    for n in walk_obs[k]["seen"]:
-        first = next(j for j in range(k + 1) if n in walk_obs[j]["seen"])
-        if first > last_handled:
-            return True
+    """Did the speaker first hear of some node after the last time it handled one of the services
+    whose announcement differs?"""
+    o = walk_obs[k]
+    for s in differing_services(o):
+        last_handled = max([j for j in range(k + 1) if s in walk_obs[j]["handled"]], default=-1)
+        for n in o["seen"]:
+            first = next(j for j in range(k + 1) if n in walk_obs[j]["seen"])
+            if first > last_handled >= 0:
+                return True
     return False
 
 
@@ -168,8 +251,19 @@ def signature(name, walk_obs, k):
             if d:
                 parts.append("%s:%s" % (proto, d))
         same = sorted(o["annL"]) == sorted(o["fresh"]["annL"]) and sorted(o["annB"]) == sorted(o["fresh"]["annB"])
-        return "%s|diff=%s|announced=%s|hist=%s" % (name, ",".join(parts) or "none", "same" if same else "differs",
-                                                    "node-learnt-late" if node_learnt_late(walk_obs, k) else "other")
+        # layer-2 entries only the old speaker has: is the address still one of the service's?
+        kinds = set()
+        for e in set(ml2) - set(fl2):
+            v = o["cl"]["svcs"].get(e[0], {"null": True})
+            if v.get("null") or v.get("type") != "LB":
+                kinds.add("no-service")
+            elif e[1] in v.get("ips", []):
+                kinds.add("current-address")
+            else:
+                kinds.add("old-address")
+        return "%s|diff=%s|announced=%s|l2stale=%s|hist=%s" % (
+            name, ",".join(parts) or "none", "same" if same else "differs", ",".join(sorted(kinds)) or "-",
+            "node-learnt-late" if node_learnt_late(walk_obs, k) else "other")
     if name == "C05.ReportedPeers":
         up = {p for p, v in o["peers"].items() if v["up"]}
         ghost = any(p not in up for l in o["rep"].values() for p in l)
@@ -190,6 +284,8 @@ def classify(fails_of_line):
                 drift.add("Converged-but-equal-to-observed-fresh")
         elif n == "C09.FreshModel":
             drift.add("observed-fresh-differs-from-spec-Fresh")
+        elif n == "C09.Drains":
+            drift.add("walk-did-not-drain")
         elif n == "C09.DiffersFromObservedFresh":
             if "C09.Converged" not in names:
                 drift.add("differs-from-observed-fresh-only")
@@ -273,8 +369,8 @@ def run_cfg(chk, cfg, mode, cat_path):
         chk.cov["model_runs"].append({"cfg": cfg, "simulated_walks": len(steps), "steps": nedges, "wall_s": round(res.wall, 1)})
     else:
         edges, init, initkey, res = generate(chk, cfg)
-        sample = SAMPLE.get(chk.tier)
-        walks, left = vlib.edge_cover_walks(edges, initkey, max_len=40, seed=chk.seed, sample=sample)
+        sample = SAMPLE[chk.tier][chk.prop]
+        walks, left = cover_walks(edges, initkey, max_len=40, seed=chk.seed, sample=sample)
         steps = [[edges[i][1] for i in w] for w in walks]
         inits = [init] * len(walks)
         nedges = len(edges)
@@ -287,7 +383,9 @@ def run_cfg(chk, cfg, mode, cat_path):
     obs_path = replay_walks(chk, scen, cat_path, cfg)
     fails, nlines = judge(chk, obs_path)
     byw = by_walk(obs_path)
-    nontrivial, quiescent, skipped, settled = set(), 0, 0, 0
+    if not hasattr(chk, "spk_nontrivial"):
+        chk.spk_nontrivial = set()      # over all configurations of the run: a case counts once
+    nontrivial, quiescent, skipped, settled = chk.spk_nontrivial, 0, 0, 0
     for w, ol in byw.items():
         for k in range(1, len(ol)):
             a, b = ol[k - 1], ol[k]
@@ -296,11 +394,12 @@ def run_cfg(chk, cfg, mode, cat_path):
             settled += bool(set(b["annB"]) <= set(b["since"]) and not b["ctl"].get("null"))
             if (a["l2"], a["peers"], a["rep"], a["annB"], a["annL"], a["ips"], a["seen"], a["ctl"]) != \
                (b["l2"], b["peers"], b["rep"], b["annB"], b["annL"], b["ips"], b["seen"], b["ctl"]):
-                nontrivial.add(vlib.canon([a["cl"], a["ctl"], a["seen"], a["annB"], a["annL"], a["ips"], a["l2"],
-                                           {p: [v["up"], v["routes"]] for p, v in a["peers"].items()}, b["act"]]))
+                nontrivial.add(hashlib.md5(vlib.canon([a["cl"], a["ctl"], a["seen"], a["annB"], a["annL"], a["ips"], a["l2"],
+                                                       {p: [v["up"], v["routes"]] for p, v in a["peers"].items()},
+                                                       b["act"]]).encode()).digest())
     chk.cov["traces_validated_against_impl"] += len(steps)
     chk.cov["evaluations"] += nlines
-    chk.cov["distinct_nontrivial"] += len(nontrivial)
+    chk.cov["distinct_nontrivial"] = len(nontrivial)
     for key, val in (("quiescent_observations", quiescent), ("settled_observations", settled), ("skipped_steps", skipped)):
         chk.cov[key] = chk.cov.get(key, 0) + val
     if mode == "edges":
